@@ -11,10 +11,11 @@ for sid in sorted(os.listdir('/verif/seeded')):
     how = '; '.join(sorted({re.sub(r'.*replays/', '', l).replace('.json', '').replace(' no-failing-input-found', ' (no-failing-input-found)') for l in cr.get('lines', []) if l.startswith('VIOLATION')}))
     det = {1: 'yes', 0: '**MISSED**', None: 'n/a at HEAD'}.get(cr.get('exit'), str(cr.get('exit')))
     what = (m.get('breaks') or [''])[0].lstrip('# ').strip()
-    rows.append(f"| {sid} | {what} | {m.get('needs_to_manifest','')} | {det} | {how} |")
+    needs = m.get('needs_to_manifest','').replace('|', '/').replace('\n', ' ')[:400]
+    rows.append(f"| {sid} | {what.replace('|','/')} | {needs} | {det} | {how} |")
 tbl = "| Seed | Change | Needs, to manifest | Detected by `./check` | Replay (oracle signature / unchecked obligation) |\n|---|---|---|---|---|\n" + "\n".join(rows)
 p = '/verif/DESIGN.md'
 s = open(p).read()
-s = re.sub(r'<!-- SEEDTABLE:BEGIN -->.*?<!-- SEEDTABLE:END -->', '<!-- SEEDTABLE:BEGIN -->\n' + tbl + '\n<!-- SEEDTABLE:END -->', s, flags=re.S)
+s = re.sub(r'<!-- SEEDTABLE:BEGIN -->.*?<!-- SEEDTABLE:END -->', lambda m: '<!-- SEEDTABLE:BEGIN -->\n' + tbl + '\n<!-- SEEDTABLE:END -->', s, flags=re.S)
 open(p, 'w').write(s)
 print(len(rows), 'rows')
